@@ -69,12 +69,33 @@ def replay(args):
     # (in the `fresh_parents` reference histories nothing was elaborated before: the new parents must come out the same, and a parent that
     #  is refused on a fresh child must be refused on an elaborated one)
     extra = []
+    if case.get("partial"):
+        # a history that leaves the child flattened but not finished: a custom Elaborator holding only the passes up to bundle flattening
+        from hdl21.elab.elab import Elaborator
+        default = Elaborator.default().passes
+        upto = [p.__name__ for p in default].index("BundleFlattener") + 1
+        for name in case["parents_of"]:
+            try:
+                Elaborator(passes=list(default[:upto])).elaborate(mods[name])
+            except Exception:
+                pass
+    if not fresh:
+        # namesakes: DIFFERENT modules called like the elaborated ones (their bundle port is of another bundle type) are elaborated in between
+        for name in sorted(set(t for c in calls for t in c)):
+            m = mods[name]
+            if m._elaborated is not None and "bp" in (m._pre_flattening_io or {}):
+                from ..design import make_namesake
+                twin = make_namesake(h, m.name)
+                try:
+                    h.elaborate(twin)
+                except Exception:
+                    pass
     for name in sorted(set(t for c in calls for t in c) if not fresh else case["parents_of"]):
         m = mods[name]
         if m._elaborated is None and not fresh:
             continue
         has_bp = "bp" in (m._pre_flattening_io or {}) or m.get("bp") is not None
-        if has_bp:
+        def step_bad():
             # a bundle of ANOTHER type whose signals are a strict superset of the port's: not a B1, must be refused whatever happened before
             from hdl21 import Bundle
             sup = Bundle(name="B1sup")
@@ -85,18 +106,21 @@ def replay(args):
             bad.i = m(p=bad.s, bp=bad.b)
             raised, dg, exc = ET.do_call(h, "to_proto", [bad])
             outs.append({"tid": tid, "key": f"{shape}|badparent|{name}", "val": "refused" if raised else "accepted"})
-        p = h.Module(name="NewParent_" + name)
-        p.s = h.Signal()
-        if has_bp:
-            p.b = bld.bundle("B1")()
-            p.i = m(p=p.s, bp=p.b)
-        else:
-            p.w = h.Signal(width=2)
-            p.i = m(p=p.s, q=p.w)
-        raised, dg, exc = ET.do_call(h, "to_proto", [p])
-        outs.append({"tid": tid, "key": f"{shape}|newparent|{name}", "val": exc if raised else dg})
-        # ... also reaching the elaborated module's bundle-valued port through a port reference, and leaving it open
-        if "bp" in (m._pre_flattening_io or {}):
+
+        def step_p():
+            p = h.Module(name="NewParent_" + name)
+            p.s = h.Signal()
+            if has_bp:
+                p.b = bld.bundle("B1")()
+                p.i = m(p=p.s, bp=p.b)
+            else:
+                p.w = h.Signal(width=2)
+                p.i = m(p=p.s, q=p.w)
+            raised, dg, exc = ET.do_call(h, "to_proto", [p])
+            outs.append({"tid": tid, "key": f"{shape}|newparent|{name}", "val": exc if raised else dg})
+
+        def step_q():
+            # ... also reaching the module's bundle-valued port through a port reference, and leaving it open
             q = h.Module(name="NewParentRef_" + name)
             q.s = h.Signal()
             q.b = bld.bundle("B1")()
@@ -105,6 +129,12 @@ def replay(args):
             q.i3 = m(p=q.i1.p, bp=h.NoConn())
             raised, dg, exc = ET.do_call(h, "to_proto", [q])
             outs.append({"tid": tid, "key": f"{shape}|newparent|ref_{name}", "val": exc if raised else dg})
+        # (the order matters: each step that gets as far as exporting completes the child's elaboration for those that follow)
+        steps = [step_bad, step_p, step_q] if has_bp else [step_p]
+        if has_bp and (case.get("partial") or tid % 2):
+            steps = [step_q, step_bad, step_p]
+        for st in steps:
+            st()
         if fresh:
             continue
         # additions to an elaborated module must be refused - and a refused one must leave the module as it was
@@ -252,6 +282,7 @@ def run(tier, seed, replay_file=None):
             for name in ET.SHAPES[shape]:
                 cases.append(reference_case(shape, name))
                 cases.append({"shape": shape, "calls": [], "kinds": [], "reference": True, "fresh_parents": True, "parents_of": [name]})
+                cases.append({"shape": shape, "calls": [], "kinds": [], "fresh_parents": True, "partial": True, "parents_of": [name]})
         o.exhaustive = True
     import multiprocessing as mp
     ctx = mp.get_context("fork")
